@@ -83,6 +83,9 @@ class Sched:
         self.on_block = None      # callable(thread_state) just before a thread blocks (oracle hook)
         self.preemptions = 0
         self.max_steps = 200000
+        self.fair_steps = 20000     # a thread that ran this long without a switch yields once (no real scheduler starves the others for ever)
+        self.run_len = 0
+        self.fair_switches = 0
         self.limit_hit = False
         self.sites = set()
         self.busy = 0
@@ -114,6 +117,7 @@ class Sched:
 
         t = world._real['Thread'](target=body, name=name, daemon=True)
         t.sim_name = name
+        t.sim_sched = self
         st.thread = t
         t.start()
         return st
@@ -204,6 +208,7 @@ class Sched:
             ms = self.threads.get(me)
             self.ctx.trace('[sched] %s (%s%s) -> %s' % (me, ms.state if ms else '?', (' on %s' % (ms.waiting_on[0],)) if ms and ms.state == 'blocked' and ms.waiting_on else '', nxt))
         if nxt != me:
+            self.run_len = 0
             self.threads[nxt].sem.release()
             if not exiting:
                 self.threads[me].sem.acquire()
@@ -266,6 +271,16 @@ class Sched:
             self.done.set()
             self.killed = True
             raise SimKill()
+        self.run_len += 1
+        if self.run_len > self.fair_steps:
+            self.run_len = 0
+            others = [n for n in self._runnable() if n != name]
+            if others:
+                self.fair_switches += 1
+                if self.ctx is not None and self.ctx.keep_trace:
+                    self.ctx.trace('fairness: %s ran %d steps without a switch (spinning at %s:%d) -> %s' % (name, self.fair_steps, code.co_name, line, others[0]))
+                self._switch(prefer=others[0])
+                return
         tgt = self.plan.get((name, st.steps))
         if self.site_plan:
             k = (name, code.co_name)
@@ -291,13 +306,26 @@ class Sched:
                 self._switch(prefer=tgt)
 
 
+def _sched(blocking=True):
+    """The scheduler the calling thread belongs to.  A thread left over from a run that was torn down must never touch the scheduler of
+    a later run: it is killed at its next blocking call (blocking=True) or ignored (blocking=False)."""
+    own = getattr(threading.current_thread(), 'sim_sched', None)
+    if own is None:
+        return SCHED
+    if own.killed or own is not SCHED:
+        if blocking:
+            raise SimKill()
+        return None
+    return own
+
+
 class SimRLock:
     def __init__(self):
         self.owner = None
         self.count = 0
 
     def acquire(self, blocking=True, timeout=-1):
-        s = SCHED
+        s = _sched()
         me = s.me() if s is not None else None
         if me is None:           # used outside a simulation (e.g. Manager() built by the harness thread)
             self.count += 1
@@ -315,7 +343,7 @@ class SimRLock:
         if self.count <= 0:
             self.count = 0
             self.owner = None
-            s = SCHED
+            s = _sched(False)
             if s is not None:
                 s.wake(lambda w: isinstance(w, tuple) and w[0] == 'lock' and w[1] is self)
 
@@ -334,7 +362,7 @@ class SimEvent:
 
     def set(self):
         self.flag = True
-        s = SCHED
+        s = _sched(False)
         if s is not None:
             s.wake(lambda w: isinstance(w, tuple) and w[0] == 'event' and w[1] is self)
 
@@ -344,7 +372,7 @@ class SimEvent:
     def wait(self, timeout=None):
         if self.flag:
             return True
-        s = SCHED
+        s = _sched()
         if s is None or s.me() is None:
             raise world.Quiescent()
         if timeout is not None and timeout >= 10000:
@@ -409,10 +437,14 @@ def monitor_module(mod):
 
 
 def _line_cb(code, line):
-    s = SCHED
-    if s is not None:
-        return s.on_line(code, line)
-    return None
+    own = getattr(threading.current_thread(), 'sim_sched', None)
+    if own is None:
+        return None
+    if own.killed or own is not SCHED:
+        # a thread of a run that is being (or has been) torn down: circuits catches BaseException around handlers, so the kill
+        # is raised again at every further line until the thread has unwound completely
+        raise SimKill()
+    return own.on_line(code, line)
 
 
 def install(extra_modules=()):
@@ -452,6 +484,8 @@ def end():
     s = SCHED
     if s is not None and not s.killed and any(t.state != 'done' for t in s.threads.values()):
         s.kill()
+    if s is not None and s.fair_switches and s.ctx is not None:
+        s.ctx.stat('fairness-switch', s.fair_switches)
     SCHED = None
     W.lock_factory = None
     W.event_factory = None
